@@ -45,6 +45,7 @@ type cmd struct {
 	text string
 	obl  bool // assumed because an obligation with this goal was generated just before
 	blk  int  // basic block in which the fact was established (-1: function entry / global)
+	props []string // precondition tagged for these properties only: left out of obligations that serve none of them
 }
 
 type Enc struct {
@@ -95,7 +96,27 @@ func (e *Enc) assume(t *T) {
 		return
 	}
 	e.seq++
-	e.cmds = append(e.cmds, cmd{e.seq, "(assert " + t.S + ")", false, e.curBlk})
+	e.cmds = append(e.cmds, cmd{seq: e.seq, text: "(assert " + t.S + ")", blk: e.curBlk})
+}
+
+// assumeTagged records an entry precondition that only matters to the given properties.
+func (e *Enc) assumeTagged(t *T, props []string) {
+	if t.S == "true" {
+		return
+	}
+	e.seq++
+	e.cmds = append(e.cmds, cmd{seq: e.seq, text: "(assert " + t.S + ")", blk: e.curBlk, props: props})
+}
+
+func intersects(a, b []string) bool {
+	for _, x := range a {
+		for _, y := range b {
+			if x == y {
+				return true
+			}
+		}
+	}
+	return false
 }
 
 // assumeAt records a fact that belongs to block blk (used for lazily created merges).
@@ -104,7 +125,7 @@ func (e *Enc) assumeAt(t *T, blk int) {
 		return
 	}
 	e.seq++
-	e.cmds = append(e.cmds, cmd{e.seq, "(assert " + t.S + ")", false, blk})
+	e.cmds = append(e.cmds, cmd{seq: e.seq, text: "(assert " + t.S + ")", blk: blk})
 }
 
 // define introduces a named constant equal to the term (keeps queries small).
@@ -119,7 +140,7 @@ func (e *Enc) define(hint string, t *T) *T {
 	r.GoT = t.GoT
 	r.Op, r.Args = t.Op, t.Args
 	e.seq++
-	e.cmds = append(e.cmds, cmd{e.seq, sapp("assert", sapp("=", name, t.S)), false, e.curBlk})
+	e.cmds = append(e.cmds, cmd{seq: e.seq, text: sapp("assert", sapp("=", name, t.S)), blk: e.curBlk})
 	return r
 }
 
@@ -552,6 +573,12 @@ func (e *Enc) queryX(upToSeq int, extra []string, getValues []string, skipObl bo
 // queryF: as queryX, keeping only the facts established in blocks of `keep`
 // (the blocks from which the obligation's block is reachable) and at entry.
 func (e *Enc) queryF(upToSeq int, extra []string, getValues []string, skipObl bool, keep map[int]bool) string {
+	return e.queryP(upToSeq, extra, getValues, skipObl, keep, nil)
+}
+
+// queryP: as queryF; a precondition tagged `props:` is dropped (sound: fewer assumptions) when
+// the obligation serves none of those properties - it keeps unrelated quantified facts out.
+func (e *Enc) queryP(upToSeq int, extra []string, getValues []string, skipObl bool, keep map[int]bool, obProps []string) string {
 	var b strings.Builder
 	b.WriteString(prelude)
 	b.WriteString(e.w.rawSMT)
@@ -572,6 +599,9 @@ func (e *Enc) queryF(upToSeq int, extra []string, getValues []string, skipObl bo
 			continue
 		}
 		if keep != nil && c.blk >= 0 && !keep[c.blk] {
+			continue
+		}
+		if len(c.props) > 0 && len(obProps) > 0 && !intersects(c.props, obProps) {
 			continue
 		}
 		b.WriteString(c.text)
